@@ -454,6 +454,30 @@ func corrC06(outDir string, seed uint64, tier string, replay string) *report {
 						judge1(h[:i]+three+h[i+3:], pw, "utf8_lowbyte")
 					}
 				}
+				// double faults: a cost / salt edit (often out of range) combined with a digest of another length, judged
+				// with the right password, a wrong one and an over-long one -- a string that is wrong in two respects is
+				// still malformed or out of range, never a mere mismatch
+				{
+					lo2, hi2 := digestSpan(s.name, h)
+					longPw := strings.Repeat("L", 300)
+					cnt := 0
+					for _, e := range numericNeighbours(h[:lo2]) {
+						if rc := recognise(s.name, e+h[lo2:hi2]); tooExpensive(s.name, rc) {
+							continue
+						}
+						for _, d := range []string{h[lo2 : hi2-1], h[lo2:hi2] + "A", "", h[lo2:hi2]} {
+							if cnt++; cnt > 400 {
+								break
+							}
+							for _, p := range []string{pw, longPw} {
+								if d == h[lo2:hi2] && p == pw {
+									continue
+								}
+								judge1(e+d+h[hi2:], p, "double_fault")
+							}
+						}
+					}
+				}
 				sweepOK := true
 				for _, e := range fieldSweeps(h) {
 					rc := recognise(s.name, e)
